@@ -19,6 +19,8 @@ pub struct EngineProp {
     pub rule: &'static str,
     pub directed: fn() -> Vec<(String, SimCase)>,
     pub fixup: fn(&mut SimCase),
+    /// optional second generator profile mixed in with weight 1:3
+    pub alt_profile: Option<fn(Tier) -> Profile>,
 }
 
 /// labels shared by all engine properties, computed from the trace only
@@ -194,7 +196,15 @@ impl Property for EngineProp {
     fn strategy(&self, tier: Tier) -> BoxedStrategy<SimCase> {
         let p = (self.profile)(tier);
         let fix = self.fixup;
-        sim_case_strategy(&p)
+        let main = sim_case_strategy(&p);
+        let combined: BoxedStrategy<SimCase> = match self.alt_profile {
+            Some(alt) => {
+                let a = sim_case_strategy(&alt(tier));
+                proptest::strategy::Union::new_weighted(vec![(3, main), (1, a)]).boxed()
+            }
+            None => main,
+        };
+        combined
             .prop_map(move |mut c| {
                 fix(&mut c);
                 c
@@ -317,6 +327,7 @@ pub fn c01() -> EngineProp {
         rule: "any-driver EngineSim histories (user submissions, open/close, server packets incl. adversarial acks, write completions, service with generated buffer capacity, clock advances, reset) over all offline/drain/retry/version configurations; non-trivial = at least one accepted operation AND (a close while an operation was queued / half encoded / unflushed / awaiting its ack, or an adversarial/duplicated ack, or an ack timeout, or a reset with unresolved operations); distinct = different hash of the abstracted event history",
         directed: no_directed,
         fixup: common_fix,
+        alt_profile: None,
     }
 }
 
@@ -356,6 +367,7 @@ pub fn c04() -> EngineProp {
         rule: "QoS1/2-heavy EngineSim histories with state-directed closes at every listed position (queued, half encoded, unflushed, awaiting PUBACK/PUBREC/PUBCOMP, PUBREL queued / half encoded) followed by reconnects with session present / absent / failing CONNACK; non-trivial = a QoS>=1 publish interrupted at one of those positions and followed by a reconnect; distinct = abstracted event history hash",
         directed: no_directed,
         fixup: common_fix,
+        alt_profile: None,
     }
 }
 
@@ -414,6 +426,7 @@ pub fn c05() -> EngineProp {
         rule: "inbound-heavy EngineSim histories: server PUBLISH (QoS0/1/2, DUP or not, identifiers drawn from 6 values so they repeat) and PUBREL (known and unknown ids) interleaved with outbound traffic, small buffers, closes and reconnects with/without session; non-trivial = a QoS2 identifier repeated before its PUBREL, or >= 3 acknowledged inbound packets on one connection; distinct = abstracted event history hash",
         directed: no_directed,
         fixup: common_fix,
+        alt_profile: None,
     }
 }
 
@@ -460,6 +473,7 @@ pub fn c06() -> EngineProp {
         rule: "EngineSim histories mixing subscribe/unsubscribe/QoS1/QoS2 with all ack orders, ack timeouts, operations failing last-chance validation after an id was bound (packet size, QoS, retain limits from CONNACK), closes at every position and session outcomes; the extra step runs long histories that cross the 65535->1 wrap with occupied identifiers; non-trivial = >= 3 distinct identifiers on the wire AND an identifier released through a failure path or a reconnect; distinct = abstracted event history hash",
         directed: no_directed,
         fixup: common_fix,
+        alt_profile: None,
     }
 }
 
@@ -503,6 +517,7 @@ pub fn c07() -> EngineProp {
         rule: "EngineSim histories of up to several connections with outcomes success (+assigned client id) / failing CONNACK / silence until the deadline / protocol garbage, user operations and DISCONNECT requests at any moment of the handshake, buffer capacities 4..4096, unsolicited and repeated CONNACKs; non-trivial = CONNECT spanning >= 3 service calls, or a user event during the handshake, or >= 3 connections; distinct = abstracted event history hash",
         directed: no_directed,
         fixup: common_fix,
+        alt_profile: None,
     }
 }
 
@@ -548,6 +563,7 @@ pub fn c09() -> EngineProp {
         rule: "QoS1/2-heavy EngineSim histories with receive-maximum in {1,2,3,10,65535,absent}, reordered and delayed acks, resubmission bursts after reconnect, both drain policies; non-trivial = at least receive-maximum QoS>0 publishes sent on one connection (bound reachable), or one-at-a-time policy with an operation interrupted while awaiting its ack and a reconnect; distinct = abstracted event history hash",
         directed: no_directed,
         fixup: common_fix,
+        alt_profile: None,
     }
 }
 
@@ -610,6 +626,7 @@ pub fn c10() -> EngineProp {
         rule: "EngineSim histories with long queues of mixed operations submitted while offline or throttled, closes with a duplicate publish half encoded and others in flight, session outcomes, offline policies and receive-maximum stalls; non-trivial = a connection carrying >= 2 retransmissions and >= 2 fresh operations (or >=1 and >=3); distinct = abstracted event history hash",
         directed: no_directed,
         fixup: common_fix,
+        alt_profile: None,
     }
 }
 
@@ -658,6 +675,7 @@ pub fn c11() -> EngineProp {
         rule: "driver-producible EngineSim histories against an adversarial broker (wrong-type / unknown-id / duplicate acks, reason-count mismatch, AUTH, second CONNACK, garbage, truncated packets, bad aliases, oversize packets, CONNACK before the CONNECT was flushed) with extreme configuration values (0 / 1 ms / huge timeouts, keep-alive 0/1/65535, capacity 4), plus compliant-broker cases for the converse clause; non-trivial = an error path taken, or an event delivered after an error, or an ack timeout fired, or a steered CONNACK during CONNECT transmission; distinct = abstracted event history hash",
         directed: no_directed,
         fixup: common_fix,
+        alt_profile: Some(p11c),
     }
 }
 
@@ -731,6 +749,7 @@ pub fn c15() -> EngineProp {
         rule: "EngineSim histories over the four offline policies x all operation kinds x every position at the moment of disconnection (state-directed closes) x session present/absent x submissions in every non-connected engine state, ending with a drain phase against a responsive broker; non-trivial = policy != PreserveAll with an operation of a rejected kind alive across a disconnection together with a preserved one (or PreserveNothing), or submitted while offline; distinct = abstracted event history hash",
         directed: no_directed,
         fixup: common_fix,
+        alt_profile: None,
     }
 }
 
@@ -774,6 +793,7 @@ pub fn c17() -> EngineProp {
         rule: "publish-heavy EngineSim histories over 5 topics with the null / manual / LRU(1,2,10) resolvers, server alias maximum in {absent,0,1,2,8}, operations failing last-chance validation or interrupted after alias resolution, reconnects; inbound alias/topic sequences incl. rebinding and unknown / zero / out-of-range aliases; non-trivial = an outbound PUBLISH with empty topic + alias, or >= 2 aliased publishes with a validation failure between, or an inbound aliased PUBLISH; distinct = abstracted event history hash",
         directed: no_directed,
         fixup: common_fix,
+        alt_profile: None,
     }
 }
 
@@ -817,6 +837,7 @@ pub fn c18() -> EngineProp {
         rule: "EngineSim histories with ack timeouts in {none,0,1,50,1000 ms}, clock advances of 0/1/49/50/51/999/1000/1500 ms and jumps to / just before / past the reported next-service time, multi-write packets, QoS2 handshakes, retry limits N in {0,1,2,5} and sequences of closes interleaved with partial progress; non-trivial = an ack timeout fired, or the retry limit was hit, or an operation was transmitted on >= 2 connections under a retry limit; distinct = abstracted event history hash",
         directed: no_directed,
         fixup: common_fix,
+        alt_profile: None,
     }
 }
 
